@@ -60,6 +60,8 @@ type FuncVer struct {
 	stepBudget int
 	heapSorts  map[string]*Sort
 	ghostLocals map[string]*ghostLocal
+	pointees    map[string]pointee
+	ifaceTypes  map[string]types.Type // mkiface_<T> function symbol -> T
 	ghostAxioms []*Term // well-formedness of initial ghost values; added to every query that mentions them
 	entryVars  map[string]SVal
 }
@@ -1039,6 +1041,10 @@ func (fv *FuncVer) makeIface(st *State, v Val, t types.Type) *Term {
 	}
 	name := "mkiface_" + sanitize(typeKey(t))
 	r := c.Func(name, c.SIface, payload)
+	if fv.ifaceTypes == nil {
+		fv.ifaceTypes = map[string]types.Type{}
+	}
+	fv.ifaceTypes[r.Op] = t
 	st.assume(Not(Eq(r, c.NilIface())))
 	st.assume(Eq(c.Func("iface_type", SInt, r), fv.typeTag(t)))
 	st.assume(Eq(c.Func("unbox_"+sanitize(typeKey(t)), payload.Sort, r), payload))
